@@ -11,7 +11,7 @@ func (rs *RecordSet) readFromVersion2(d *decoder) error {
 	baseOffset := d.readInt64()
 	batchLength := d.readInt32()
 
-	if int(batchLength) > d.remain || d.err != nil {
+	if batchLength < 0 || int(batchLength) > d.remain || d.err != nil {
 		d.discardAll()
 		return nil
 	}
@@ -66,6 +66,11 @@ func (rs *RecordSet) readFromVersion2(d *decoder) error {
 	dec.reader = buffer
 	dec.remain = recordsLength
 
+	if numRecords < 0 || int(numRecords) > recordsLength {
+		// Every record takes at least one byte.
+		return fmt.Errorf("invalid number of records in record batch (%d records in %d bytes): %w", numRecords, recordsLength, io.ErrUnexpectedEOF)
+	}
+
 	records := make([]optimizedRecord, numRecords)
 	// These are two lazy allocators that will be used to optimize allocation of
 	// page references for keys and values.
@@ -115,6 +120,11 @@ func (rs *RecordSet) readFromVersion2(d *decoder) error {
 		}
 
 		if numHeaders := dec.readVarInt(); numHeaders > 0 {
+			if numHeaders > int64(dec.remain) {
+				// Every header takes at least two bytes.
+				return fmt.Errorf("invalid number of headers in record (%d headers in %d bytes): %w", numHeaders, dec.remain, io.ErrUnexpectedEOF)
+			}
+
 			if headers == nil {
 				headers = make([][]Header, numRecords)
 			}
